@@ -307,7 +307,7 @@ func TestVf_C19(t *testing.T) {
 		vfBackoffRun(run, cs)
 	}
 	// the delays a StreamManager really sleeps, read off the goroutine dump (no clock involved)
-	for i := 0; i < vfkit.Pick(1, 6) && !run.Enough(); i++ {
+	for i := 0; i < vfkit.Pick(4, 24) && !run.Enough(); i++ {
 		vfC19Outages(run, i)
 	}
 	if run.NViolations() > 0 {
@@ -334,10 +334,24 @@ func vfC19Outages(run *vfkit.Run, idx int) {
 		}
 		k := atomic.LoadInt32(&sessions)
 		if int(k) < len(plan) && atomic.LoadInt32(&failures) < plan[k] {
-			// a server that is shutting down: says so and ends the stream at once (the client does not have to wait for
-			// any timeout to learn that this attempt failed)
+			// a server that cannot take the session just now: it says so at the bind and ends the stream, so that the
+			// client learns at once - within milliseconds, without any timeout - that this attempt has failed
 			atomic.AddInt32(&failures, 1)
-			pc.Send(vfStreamHeader("jabber:client", "down", "localhost") + "<stream:error><system-shutdown xmlns='urn:ietf:params:xml:ns:xmpp-streams'/></stream:error></stream:stream>")
+			pc.Send(vfStreamHeader("jabber:client", "down", "localhost") + "<stream:features><mechanisms xmlns='" + vfNSSASL + "'><mechanism>PLAIN</mechanism></mechanisms></stream:features>")
+			if _, err := pc.Expect("auth"); err != nil {
+				return
+			}
+			pc.Send("<success xmlns='" + vfNSSASL + "'/>")
+			pc.Restart()
+			if _, err := pc.Expect("stream"); err != nil {
+				return
+			}
+			pc.Send(vfStreamHeader("jabber:client", "down2", "localhost") + "<stream:features><bind xmlns='" + vfNSBind + "'/></stream:features>")
+			e, err := pc.Expect("iq")
+			if err != nil {
+				return
+			}
+			pc.Send(fmt.Sprintf("<iq type='error' id='%s'><error type='wait'><resource-constraint xmlns='urn:ietf:params:xml:ns:xmpp-stanzas'/></error></iq></stream:stream>", e.Attrs["id"]))
 			pc.idle = 300 * time.Millisecond
 			for {
 				if _, err := pc.Next(); err != nil {
@@ -408,25 +422,32 @@ func vfC19Outages(run *vfkit.Run, idx int) {
 	}()
 	defer close(stopSampler)
 	for k := 0; k < len(plan); k++ {
-		select {
-		case pc := <-cmds:
-			if k < len(plan)-1 {
-				pc.Close() // the loss that starts the next outage
-			}
-		case err := <-done:
-			run.Inconclusive("stream-manager-ended")
-			run.Note(fmt.Sprint(err))
-			return
-		case <-time.After(60 * time.Second):
-			mu.Lock()
-			w := worst
-			mu.Unlock()
-			if w != "" {
-				run.Violation("C19/above-reference:stream-manager-outage", w, cs)
-			} else {
+		deadline := time.After(60 * time.Second)
+	wait:
+		for {
+			select {
+			case pc := <-cmds:
+				if k < len(plan)-1 {
+					pc.Close() // the loss that starts the next outage
+				}
+				break wait
+			case err := <-done:
+				run.Inconclusive("stream-manager-ended")
+				run.Note(fmt.Sprint(err))
+				return
+			case <-time.After(50 * time.Millisecond):
+				// a sleep beyond the bound has been seen: no need to sit it out
+				mu.Lock()
+				w := worst
+				mu.Unlock()
+				if w != "" {
+					run.Violation("C19/above-reference:stream-manager-outage", w, cs)
+					return
+				}
+			case <-deadline:
 				run.Inconclusive("outage-watchdog")
+				return
 			}
-			return
 		}
 		mu.Lock()
 		w := worst
